@@ -83,3 +83,9 @@ def stalescalar(run, P):
 def uaf(run, P):
     from rules import r_uaf
     r_uaf.run(run, P)
+def delayq(run, P):
+    from rules import r_delayq
+    r_delayq.run(run, P)
+def hashed(run, P):
+    from rules import r_session
+    r_session.run_hashed(run, P)
